@@ -95,6 +95,21 @@ theorem bytesLt_irrefl : ∀ a : Bytes, bytesLt a a = false
     unfold bytesLt
     simp [bytesLt_irrefl xs]
 
+/-- neither smaller nor greater means equal: the `else` branch of `AdnlChannel.__init__` is exactly `local_id == peer_id`. -/
+theorem bytesLt_total : ∀ (a b : Bytes), bytesLt a b = false → bytesLt b a = false → a = b
+  | [], [], _, _ => rfl
+  | [], _ :: _, h, _ => by simp [bytesLt] at h
+  | _ :: _, [], _, h => by simp [bytesLt] at h
+  | x :: xs, y :: ys, h1, h2 => by
+    unfold bytesLt at h1 h2
+    by_cases c1 : x < y
+    · simp [c1] at h1
+    · by_cases c2 : y < x
+      · simp [c2] at h2
+      · simp only [c1, c2, if_false] at h1 h2
+        have hxy : x = y := by omega
+        rw [hxy, bytesLt_total xs ys h1 h2]
+
 /-! ## cipher parameters -/
 
 theorem slice_length (b : Bytes) (i j : Nat) : (slice b i j).length = min (j - i) (b.length - i) := by
